@@ -28,17 +28,17 @@ def _sess(mon, what, bounds):
 
 CHECKS.update({
     "C01": _sess("Mon_C01", "message events = reference reassembly (spec/Reasm.tla) of the delivered frames, once, in order, byte-exact, payload stable after the yield",
-                 "Conforming-server automaton, <= 3 (quick) / 4 (thorough) frames after the handshake, x 3 read segmentations."),
+                 "Conforming-server automaton, all sequences of <= 3 frames after the handshake (thorough adds 30000 simulated behaviours of up to 8 frames, 4 per read), x 3 read segmentations; plus the payload-length grid (lengths 0,1,125,126,127,65535,65536,65537 x every length form incl. non-minimal x place in the message)."),
     "C04": _sess("Mon_C04", "first RFC 6455 violation found by the reference interpreter => prefix delivered, exactly one ProtocolError, nothing after, non-graceful Disconnected, at most one Close frame written",
-                 "45 violating frames over all classes of the statement among 4 valid frames, sequences of <= 2 (quick) / 3 frames, also while the closing handshake is in progress; x 3 read segmentations. Frames after the server's own Close frame are not judged (RFC leaves it open)."),
+                 "45 violating frames over all classes of the statement among 4 valid frames, all sequences of <= 2 frames, a fragment-discipline alphabet 3 (quick) / 4 frames deep, violations while the closing handshake is in progress, x 3 read segmentations; random long scripts validated by TLC (TraceLomond); thorough adds deep simulation; plus the sweep of all 65536 two-byte headers (1 context quick / 6 contexts thorough) against the TLC-printed verdict table. Frames after the server's own Close frame are not judged (RFC leaves it open); frames written by application calls are the application's."),
     "C08": _sess("Mon_C08", "closing-handshake clauses of the statement in both directions",
-                 "<= 3 (quick) / 4 server frames, <= 2 / 3 application reactions (send/close) at any event incl. Connecting/Connected/Closing; fault-free transport."),
+                 "<= 3 server frames (incl. a Close with a 123-byte reason), <= 2 application reactions (send/close) at any event incl. Connecting/Connected/Closing/Closed; fault-free transport; random long scripts validated by TLC; thorough adds deep simulation (6 frames, 4 reactions)."),
     "C09": _sess("Mon_C09", "no escape, no hang, ConnectFail iff before Connected, non-graceful unless a closing handshake had started, all addresses tried, sockets closed, only WebSocketError from sends",
-                 "fault choice at every interaction point of the bounded model; terminal fault moved to every byte offset for a subset of base streams (6 quick / 40 thorough). A failed selector keeps failing."),
+                 "fault choice at every interaction point of the bounded model; terminal fault moved to every byte offset for a subset of base streams (6 quick / 40 thorough); random long scripts with faults validated by TLC. A failed selector keeps failing; a socket handed to the session must be closed (not merely unreachable)."),
     "C13": _sess("Mon_C13", "after abandonment every socket and selector is closed",
-                 "abandonment at every event index of every bounded behaviour x 4 mechanisms; selector closure observed through a logging subclass of lomond's selector class."),
+                 "abandonment at every event index of every bounded behaviour (incl. housekeeping events under timers and after a failed application write) x 4 mechanisms; selector closure observed through a logging subclass of lomond's selector class."),
     "C15": _sess("Mon_C15", "poll spacing in [p, 2p], automatic pings per period, Unresponsive iff silence > t (noticed within p), forced disconnect in [tc+c, tc+c+p], never with 0/None",
-                 "parameter grid of 8 (quick) / 48 (thorough) (poll, ping_rate, ping_timeout, close_timeout) combinations x all histories of <= 4 time-outs and <= 2 arrivals on an integer tick grid, application close at Ready or any Poll, permanent silence; closes issued before Ready are outside the stated scope."),
+                 "parameter grid of 8 (quick) / 48 (thorough) (poll, ping_rate, ping_timeout, close_timeout) combinations x all histories of <= 4-5 time-outs and <= 2 arrivals on an integer tick grid, application close at Ready or any Poll (up to 4 repeated closes in two extra instances), permanent silence, and every arrival also trickling in one byte per tick; closes issued before Ready are outside the stated scope."),
     "C05": {"technique": _T % "Mon_C05" + "; the UTF-8 automaton of spec/Utf8.tla is checked by TLC against Table 3-7 and its complete transition table is bound to the real validator row by row",
             "level_text": "TLC checks spec/Utf8.tla (automaton accepts iff well-formed per Table 3-7, dead iff no continuation exists, decode inverts encode) over all sequences "
                           "of boundary bytes up to length 3/4 and prints the complete 9x256 transition table; every row x distinguishing suffixes is run through the real "
@@ -107,5 +107,5 @@ CHECKS.update({
                           "schedules in the thorough tier); the wire is decoded by the independent decoder (compressed messages inflated in wire order by a context-takeover peer) and Mon_C12 (TLC) judges every distinct recorded execution.",
             "level_note": _NOTE + "C-level atomicity of zlib objects and of one sendall half is assumed; the loop thread is represented by the calls it makes (_send_pong, _check_auto_ping, _on_close)."},
     "C14": _sess("Mon_C14", "pongs = answerable pings (payload, order, multiplicity), each written before its Ping event; none with auto_pong off; failing pong writes do not disturb the event stream (twin run)",
-                 "<= 3 (quick) / 4 frames incl. 125-byte all-byte-values ping blobs, several items per read, application send/close reactions, failing writes."),
+                 "<= 3 frames incl. 125-byte all-byte-values ping blobs, several items per read, application send/close reactions, failing writes; random long scripts validated by TLC; thorough adds deep simulation (7 frames)."),
 })
